@@ -276,6 +276,16 @@ def rule_outbuf(P):
     return r
 
 
+def rule_write_event(P):
+    """the socket write callback keeps ev_write added while output is left: ev_write carries the write timeout, so removing it with pending output means the timeout can never be reported.
+    The decision table is C17's (engine/props/C17.py: sock_rule for bufferevent_writecb)."""
+    from . import C17
+    C = C17.consts(P)
+    r = C17.sock_rule(P, C, "bufferevent_writecb", "write")
+    r.id = "C20-write-event"
+    return r
+
+
 def run(ctx, config):
     P = ctx.prog(UNITS, config)
-    return [rule_slots(P), rule_callbacks(P), rule_adj(P), rule_outbuf(P)]
+    return [rule_slots(P), rule_callbacks(P), rule_adj(P), rule_outbuf(P), rule_write_event(P)]
